@@ -86,13 +86,12 @@ theorem resolve_depends_on_data_and_ss (a b : Installed) (hd : a.data = b.data) 
   rw [hs]
   simp only [huni, hfirst]
 
-/-- **C13 for every registry**: after `update` (compile + install) on a registry without inheritance
-    cycles whose methods all have a virtual parameter, if the numbers fit the 16-bit fields (`Fits16`: group
-    and method indices below 2^14, definitions per method and first slots below 2^15), then the dispatch data
-    emitted by the generator, once decoded, makes every call resolve exactly as after `update`: the decoded
-    image has the same words, and `resolve` returns the same function for every method and every tuple of
-    v-table pointers — uni- and multi-methods, error cells, classes whose v-table does not start at slot
-    0, classes without entries -/
+/-- **C13 for every registry whose numbers fit** (`Fits16`, what the encoder checks value by value): after
+    `update` (compile + install) on a registry without inheritance cycles whose methods all have a virtual
+    parameter, the dispatch data emitted by the generator, once decoded, makes every call resolve exactly
+    as after `update`: the decoded image has the same words, and `resolve` returns the same function for
+    every method and every tuple of v-table pointers — uni- and multi-methods, error cells, classes whose
+    v-table does not start at slot 0, classes without entries -/
 theorem C13_calls_after_decode_as_after_update (proj : Nat → Nat) (reg : Registry)
     (hwf : GraphProofs.WF proj reg.classes reg.methods)
     (c : Compiled) (hc : compile proj reg = .ok c) (inst : Installed) (hinst : install c = .ok inst)
@@ -102,5 +101,34 @@ theorem C13_calls_after_decode_as_after_update (proj : Nat → Nat) (reg : Regis
       ∀ (mi : Nat) (args : List (Kind × Int)), resolve d.toInstalled mi args = resolve inst mi args := by
   obtain ⟨d, hd, hdata, hvptr, hss⟩ := round_trip_after_compile proj reg hwf c hc inst hinst har hfit cells hcells hnd
   exact ⟨d, hd, hvptr, fun mi args => resolve_depends_on_data_and_ss _ _ hdata hss mi args⟩
+
+/-- **C13 for every registry, without a size hypothesis**: whatever `encode_dispatch_data` emits for the
+    result of an `update` (it emits nothing, and throws, exactly when some value does not fit its 16-bit
+    field — `encodeChecked`, `fits16_iff`) decodes, in place and inside the emitted structure, to an image
+    with the same words, v-table pointers and `slots_strides` as the one `update` installed, over which
+    every call resolves as after `update` -/
+theorem C13_whatever_is_emitted_decodes_to_what_update_built (proj : Nat → Nat) (reg : Registry)
+    (hwf : GraphProofs.WF proj reg.classes reg.methods)
+    (c : Compiled) (hc : compile proj reg = .ok c) (inst : Installed) (hinst : install c = .ok inst)
+    (har : ∀ m ∈ c.methods, 1 ≤ m.vp.length)
+    (em : Emitted) (hem : encodeChecked c = some em)
+    (cells : List Nat) (hcells : cells.length = c.vtbl.length) (hnd : cells.Nodup) :
+    ∃ d, decode em (msOf c) cells = .ok d ∧ d.toInstalled.vptr = inst.vptr ∧
+      ∀ (mi : Nat) (args : List (Kind × Int)), resolve d.toInstalled mi args = resolve inst mi args := by
+  unfold encodeChecked at hem
+  by_cases hf : fits16 c = true
+  · rw [if_pos hf] at hem
+    cases hem
+    exact C13_calls_after_decode_as_after_update proj reg hwf c hc inst hinst har ((fits16_iff c).mp hf) cells hcells hnd
+  · rw [if_neg hf] at hem
+    cases hem
+
+/-- the refusal is exact: the encoder emits iff every value fits -/
+theorem C13_emits_iff_fits (c : Compiled) : (encodeChecked c).isSome = true ↔ Fits16 c := by
+  unfold encodeChecked
+  rw [← fits16_iff]
+  by_cases hf : fits16 c = true
+  · simp [hf]
+  · simp [hf]
 
 end Yomm2.Props.C13
